@@ -2,6 +2,7 @@ package mon
 
 import (
 	"encoding/json"
+	"errors"
 	"fmt"
 	"math"
 	"reflect"
@@ -29,7 +30,8 @@ func init() {
 		Rule: "error-biased workloads drive every public entry point: the lexer alone, ParseQuery/ParseSchema with and without token limits on token-mutated documents with hostile trivia (multi-line block strings, non-ASCII before errors), LoadSchema on faulted schemas split over named sources, " +
 			"Validate with every rule on faulted documents parsed from a named source, gqlparser.LoadQuery, and VariableValues on defective variable maps (error paths through lists and input objects). Every error object is checked: non-empty message; validation errors name a rule and have a location; " +
 			"errors about a named source carry that file name; the JSON encoding of the error and of the gqlerror.List decodes generically into message (non-empty string), locations with positive integer line and column, path of strings and integers; the path survives encode/decode. " +
-			"Independently every path over the element alphabet {\"a\", \"\", \"b.c\", \"0\", \"é\\\"\", 0, 1, 7, 2^31-1} up to length 4 (quick) / 6 (thorough) is marshalled and unmarshalled (exhaustive). " +
+			"For every enumerated path up to length 3 the exported constructors and wrappers (Errorf, ErrorPathf, ErrorLocf, ErrorPosf, Wrap, WrapPath, WrapIfUnwrapped, SetFile) are driven with that path, a message, a file and a position: what goes in must come out, the result meets the same obligations, and a List answers errors.Is/As/Unwrap/Error for its members. " +
+			"Independently every path over the element alphabet {\"a\", \"\", \"b.c\", \"0\", \"é\\\"\", a name of C0 controls and DEL, a name of a tag character, U+2028 and VT, 0, 1, 7, 2^31-1} up to length 4 (quick) / 6 (thorough) is marshalled and unmarshalled (exhaustive). " +
 			"distinct = distinct (entry point, message template) pairs reached; non-trivial = error objects checked",
 		Assumptions: []string{
 			"the token-limit error is a plain error without source and the nil-schema/nil-document guard errors of Validate are not produced by a rule: both are only checked for a non-empty message",
@@ -44,7 +46,7 @@ func init() {
 	})
 }
 
-var c20PathAlphabet = []ast.PathElement{ast.PathName("a"), ast.PathName(""), ast.PathName("b.c"), ast.PathName("0"), ast.PathName("é\""), ast.PathIndex(0), ast.PathIndex(1), ast.PathIndex(7), ast.PathIndex(math.MaxInt32)}
+var c20PathAlphabet = []ast.PathElement{ast.PathName("a"), ast.PathName(""), ast.PathName("b.c"), ast.PathName("0"), ast.PathName("é\""), ast.PathName("\x01\x7f\a"), ast.PathName("\U000e0001\u2028\v"), ast.PathIndex(0), ast.PathIndex(1), ast.PathIndex(7), ast.PathIndex(math.MaxInt32)}
 
 func c20Run(x *core.Ctx) {
 	// (1) exhaustive paths, distributed by first element
@@ -169,7 +171,12 @@ func c20Path(x *core.Ctx, p ast.Path) {
 			kv = append(kv, fmt.Sprintf("i:%d", int(t)))
 		}
 	}
-	x.DoLite("path", "elements", strings.Join(kv, "\x1f"), func() { c20PathCheck(x, p) })
+	x.DoLite("path", "elements", strings.Join(kv, "\x1f"), func() {
+		c20PathCheck(x, p)
+		if len(p) <= 3 {
+			c20Constructors(x, p)
+		}
+	})
 }
 
 func c20PathCheck(x *core.Ctx, p ast.Path) {
@@ -224,6 +231,84 @@ func c20PathCheck(x *core.Ctx, p ast.Path) {
 			}
 		}
 	}
+}
+
+// c20Constructors: the exported constructors and wrappers the library builds its errors with (and that servers use for their
+// own), driven with the enumerated path: what goes in comes out (message, path, location, file, wrapped error), the
+// result satisfies c20Error's obligations, and lists answer errors.Is/As for their members.
+func c20Constructors(x *core.Ctx, p ast.Path) {
+	h := core.HashString(fmt.Sprint(p))
+	line, col := 1+int(h%97), 1+int((h>>8)%53)
+	file := []string{"", "a.graphql", "dir/b c.graphql", "ünï.graphql"}[(h>>16)%4]
+	msg := []string{"plain message", "with %d percent", "quote \" and newline\n", "ünïcode"}[(h>>20)%4]
+	base := errors.New(msg)
+	check := func(name string, ge *gqlerror.Error, wantMsg string, wantPath ast.Path, wantLoc bool, wantFile string, wraps error) {
+		x.Count("constructed_errors")
+		if ge == nil {
+			x.Violate("constructor("+name+"):nil", "nil", "an error")
+			return
+		}
+		if ge.Message != wantMsg {
+			x.Violate("constructor("+name+"):message", ge.Message, wantMsg)
+		}
+		if !pathEqual(ge.Path, wantPath) {
+			x.Violate("constructor("+name+"):path", fmt.Sprint(ge.Path), fmt.Sprint(wantPath))
+		}
+		if wantLoc && (len(ge.Locations) != 1 || ge.Locations[0].Line != line || ge.Locations[0].Column != col) {
+			x.Violate("constructor("+name+"):location", fmt.Sprint(ge.Locations), fmt.Sprintf("[{%d %d}]", line, col))
+		}
+		if gotFile, _ := ge.Extensions["file"].(string); gotFile != wantFile {
+			x.Violate("constructor("+name+"):file", gotFile, wantFile)
+		}
+		if wraps != nil && (errors.Unwrap(ge) != wraps || !errors.Is(ge, wraps)) {
+			x.Violate("constructor("+name+"):unwrap", fmt.Sprint(errors.Unwrap(ge)), "the wrapped error")
+		}
+		if !strings.Contains(ge.Error(), wantMsg) {
+			x.Violate("constructor("+name+"):error-text", ge.Error(), "contains the message")
+		}
+		var names []string
+		if wantFile != "" {
+			names = []string{wantFile}
+		}
+		c20Error(x, "constructor("+name+")", ge, names, false)
+	}
+	check("ErrorPathf", gqlerror.ErrorPathf(p, "%s", msg), msg, p, false, "", nil)
+	check("Errorf", gqlerror.Errorf("%s", msg), msg, nil, false, "", nil)
+	check("ErrorLocf", gqlerror.ErrorLocf(file, line, col, "%s", msg), msg, nil, true, file, nil)
+	check("ErrorPosf", gqlerror.ErrorPosf(&ast.Position{Line: line, Column: col, Src: &ast.Source{Name: file}}, "%s", msg), msg, nil, true, file, nil)
+	check("WrapPath", gqlerror.WrapPath(p, base), msg, p, false, "", base)
+	check("Wrap", gqlerror.Wrap(base), msg, nil, false, "", base)
+	check("WrapIfUnwrapped", gqlerror.WrapIfUnwrapped(base), msg, nil, false, "", base)
+	located := gqlerror.ErrorLocf(file, line, col, "%s", msg)
+	if again := gqlerror.WrapIfUnwrapped(located); again != located {
+		x.Violate("constructor(WrapIfUnwrapped):rewraps", fmt.Sprintf("%p", again), "the same *Error")
+	}
+	if gqlerror.Wrap(nil) != nil || gqlerror.WrapPath(p, nil) != nil || gqlerror.WrapIfUnwrapped(nil) != nil {
+		x.Violate("constructor(Wrap):nil-error", "an error for a nil error", "nil")
+	}
+	setf := gqlerror.Errorf("%s", msg)
+	setf.SetFile(file)
+	if got, _ := setf.Extensions["file"].(string); got != file {
+		x.Violate("constructor(SetFile):file", got, file)
+	}
+	// lists
+	other := errors.New("not a member")
+	list := gqlerror.List{gqlerror.ErrorPathf(p, "first"), gqlerror.WrapPath(p, base), located}
+	var asTarget *gqlerror.Error
+	switch {
+	case !errors.Is(list, base) || errors.Is(list, other):
+		x.Violate("list:Is", fmt.Sprintf("Is(member)=%v Is(other)=%v", errors.Is(list, base), errors.Is(list, other)), "true, false")
+	case !errors.As(list, &asTarget) || asTarget != list[0]:
+		x.Violate("list:As", fmt.Sprint(asTarget), "the first member")
+	case len(list.Unwrap()) != len(list):
+		x.Violate("list:Unwrap", fmt.Sprint(len(list.Unwrap())), fmt.Sprint(len(list)))
+	case list.Error() != list[0].Error()+"\n"+list[1].Error()+"\n"+list[2].Error()+"\n":
+		x.Violate("list:Error", list.Error(), "one line per member")
+	}
+	if (gqlerror.List{}).Is(base) || (*gqlerror.Error)(nil).AsError() != nil || located.AsError() != error(located) {
+		x.Violate("list:empty-or-AsError", "empty list matches, or AsError changes the error", "no match; nil stays nil")
+	}
+	c20List(x, "constructed-list", list)
 }
 
 // c20Error checks one error object from an entry point. srcNames: the named sources the input came from.
@@ -351,6 +436,9 @@ func c20Check(x *core.Ctx, c *core.Case) {
 			}
 		}
 		c20PathCheck(x, p)
+		if len(p) <= 3 {
+			c20Constructors(x, p)
+		}
 	case "parse":
 		src := &ast.Source{Name: "named-" + c.Get("grammar") + ".graphql", Input: c.Get("src")}
 		names := []string{src.Name}
@@ -426,6 +514,25 @@ func c20Check(x *core.Ctx, c *core.Case) {
 			c20Error(x, "validate", e, []string{"request.graphql"}, true)
 		}
 		c20List(x, "validate", errs)
+		// a document with very many errors: whatever the library does about the volume, each object it returns is an error
+		// like any other
+		if core.HashString(c.Get("doc"))%16 == 0 {
+			var b strings.Builder
+			b.WriteString("query Many { ")
+			for i := 0; i < 260; i++ {
+				fmt.Fprintf(&b, "unknown%d ", i)
+			}
+			b.WriteString("}")
+			if md, perr := parser.ParseQuery(&ast.Source{Name: "request.graphql", Input: b.String()}); perr == nil {
+				many := validator.Validate(schema, md)
+				x.Count("many_error_documents")
+				x.Max("errors_in_one_list", int64(len(many)))
+				for _, e := range many {
+					c20Error(x, "validate-many", e, []string{"request.graphql"}, true)
+				}
+				c20List(x, "validate-many", many)
+			}
+		}
 		// the exported rule variants without suggestions, passed explicitly: same obligations
 		if len(errs) > 0 {
 			var variants []validator.Rule
